@@ -307,23 +307,25 @@ def run(model, col, tier):
                 if isinstance(elts[0] if elts else None, ast.Name):
                     v = find_assign(m, elts[0].id)
                     t = unparse(v[-1]) if v else t
-                if not ("GetLocalForReference(" in t and ".Reference" in t) and t != "vai.Variable":
+                nodep6 = m.args.args[1].arg if len(m.args.args) > 1 else "?"
+                if not ("GetLocalForReference(" in t and ".Reference" in t) and t != f"{nodep6}.Variable":
                     bad_idx.append((m.name, c.args[0].slice.value, t))
     col.check(not bad_idx and nidx >= 4, "R06.5", f"{GEN}::local indices", f"all {nidx} local.get/local.set indices come from the reference map or the argument index",
               f"local indices not taken from the reference->local map: {bad_idx}", GEN, gv.node)
     glr = model.cls(GEN, "GenerateWasmVisitor.Context").own_method("GetLocalForReference")
-    col.check("self.__refToLocalMap[ref]" in unparse(glr), "R06.5", f"{GEN}::Context.GetLocalForReference", "looks the reference up in the current function's map", None, GEN, glr)
+    col.check(f"self.__refToLocalMap[{glr.args.args[1].arg}]" in unparse(glr), "R06.5", f"{GEN}::Context.GetLocalForReference", "looks the reference up in the current function's map", None, GEN, glr)
     # push: constants by const, everything else by local.get of its own local
     pv = gv.find_method("__PushValueOntoStack") or gv.find_method("_GenerateWasmVisitor__PushValueOntoStack")
     if pv:
         t = unparse(pv[1])
-        col.check("ConstantValue" in t and "_GenerateConstant(value)" in t and "GetLocalForReference(value.Reference)" in t, "R06.5", f"{GEN}::__PushValueOntoStack",
+        vp6 = pv[1].args.args[1].arg
+        col.check("ConstantValue" in t and f"_GenerateConstant({vp6})" in t and f"GetLocalForReference({vp6}.Reference)" in t, "R06.5", f"{GEN}::__PushValueOntoStack",
                   "constants are materialised, other values are read from their own local", "operands are not pushed from the constant / from the operand's own local", GEN, pv[1])
     # operand order: for value in bi.Values (in order)
-    lp = [n for n in ast.walk(vb) if isinstance(n, ast.For) and "bi.Values" in unparse(n.iter)]
-    col.check(bool(lp) and unparse(lp[0].iter) == "bi.Values", "R06.5", f"{GEN}::v_BinaryInstruction operand order", "operands are pushed left then right", "operands are not pushed in (left, right) order", GEN, vb)
+    lp = [n for n in ast.walk(vb) if isinstance(n, ast.For) and f"{bip}.Values" in unparse(n.iter)]
+    col.check(bool(lp) and unparse(lp[0].iter) == f"{bip}.Values", "R06.5", f"{GEN}::v_BinaryInstruction operand order", "operands are pushed left then right", "operands are not pushed in (left, right) order", GEN, vb)
     res = [c for c in ast.walk(vb) if isinstance(c, ast.Call) and last_attr(c) == "GetLocalForReference"]
-    col.check(any(unparse(c.args[0]) == "bi.Reference" for c in res), "R06.5", f"{GEN}::v_BinaryInstruction result local", "the result is stored in the instruction's own local", None, GEN, vb)
+    col.check(any(unparse(c.args[0]) == f"{bip}.Reference" for c in res), "R06.5", f"{GEN}::v_BinaryInstruction result local", "the result is stored in the instruction's own local", None, GEN, vb)
     # ---------------- R06.6 ------------------------------------------------------
     from . import c07
     from ..report import Collector
